@@ -786,3 +786,33 @@ Proof.
         rewrite Mo by (rewrite zlen_cons in L1; lia).
         rewrite <- (zlen_flatT st r0 Wr). apply firstn_min_len. lia.
 Qed.
+
+(* ================================================================ enough out slots: extract_*(bytes, view ptr) never returns -1 *)
+Lemma xf_view_enough N v : forall bytes a, zlen a + zlen v <= N ->
+  match xf_loop (cb_view_front N) v bytes a with XNeg _ _ => False | _ => True end.
+Proof.
+  induction v as [|e v IH]; intros bytes a H; simpl; [exact I|]. rewrite zlen_cons in H. pose proof (zlen_nonneg v).
+  unfold cb_view_front. destruct (zlen a =? N) eqn:C; [apply Z.eqb_eq in C; lia|].
+  destruct (bytes <=? iv_len e).
+  - destruct (iv_len e - bytes =? 0); exact I.
+  - apply IH. rewrite zlen_app. unfold zlen at 2; simpl. lia.
+Qed.
+Lemma xb_view_enough N v : forall bytes a, zlen a + zlen v <= N ->
+  match xb_loop (cb_view_back N) v bytes a with XNeg _ _ => False | _ => True end.
+Proof.
+  induction v as [|e v IH]; intros bytes a H; simpl; [exact I|]. rewrite zlen_cons in H. pose proof (zlen_nonneg v).
+  unfold cb_view_back. destruct (zlen a =? N) eqn:C; [apply Z.eqb_eq in C; lia|].
+  destruct (bytes <=? iv_len e).
+  - destruct (iv_len e - bytes =? 0); exact I.
+  - apply IH. rewrite zlen_cons. lia.
+Qed.
+Lemma extract_view_enough_slots N v bytes : zlen v <= N ->
+  (match do_extract_front (cb_view_front N) v bytes [] with XNeg _ _ => False | _ => True end) /\
+  (match do_extract_back (cb_view_back N) v bytes [] with XNeg _ _ => False | _ => True end).
+Proof.
+  intros H. split.
+  - unfold do_extract_front. destruct (bytes =? 0); [exact I|]. apply xf_view_enough. unfold zlen at 1; simpl; lia.
+  - unfold do_extract_back. destruct (bytes =? 0); [exact I|].
+    pose proof (xb_view_enough N (rev v) bytes []) as G. rewrite zlen_rev in G. specialize (G ltac:(unfold zlen at 1; simpl; lia)).
+    destruct (xb_loop (cb_view_back N) (rev v) bytes []); simpl; auto.
+Qed.
